@@ -376,6 +376,13 @@ func (e *issEnv) setupThread(i int, sp issThread) (*issRT, error) {
 			e.b.Put(km, meta)
 		}
 		vk = e.names.id(certmagic.StorageKeys.Safe(cert.Names[0]))
+		if sp.Newer {
+			for _, in := range e.obs.Init {
+				if in[0] == 0 && in[1] == vk && in[2] == 2 {
+					in[3] = 5 // metadata with renewal information
+				}
+			}
+		}
 		pk = vk
 	default:
 		rt.lockKey = certmagic.VerifIssueLockKey(rt.cfg, rt.eff)
